@@ -51,7 +51,11 @@ fn checks_for(property: &str, tier: Tier) -> Vec<Box<dyn Check>> {
         | "C16" => c16::checks(tier),
         | "C18" => vec![Box::new(c18::Lowered::new(c18::Mode::Lowering, tier))],
         | "C19" => vec![Box::new(c18::Lowered::new(c18::Mode::Preservation, tier))],
-        | "C07" => c07::checks(tier),
+        | "C07" => {
+            let mut v = c07::checks(tier);
+            v.push(Box::new(poly::PolyUniverse::new("C07", tier)));
+            v
+        }
         | "C08" => {
             let mut v = c08::checks(tier);
             v.push(Box::new(c08lang::Blocks::new(tier)));
